@@ -149,6 +149,8 @@ theorem wf_sub_derived {env : Env} (henv : EnvOK env) {bit : Nat} {f : FieldCfg}
       rw [hn]; rfl
     · injection hsub with e; subst e; intro kv hkv; simp at hkv
   | int n => intro kv hkv; simp at hkv
+  | intText t n => intro kv hkv; simp at hkv
+  | dateText t d bs => intro kv hkv; simp at hkv
   | date d bs => intro kv hkv; simp at hkv
   | icc b sub hproc hty hne hfix hvar hsub =>
     unfold iccToDict at hsub
